@@ -184,6 +184,7 @@ func TestVfC12Edns(t *testing.T) {
 		outcome := rapid.SampledFrom([]string{"reply", "reply", "reply", "rcode", "refused", "servfail", "notimp"}).Draw(t, "outcome")
 		label := fmt.Sprintf("q%dp%d", seq, os.Getpid())
 		var name vfkit.Name
+		longName := false
 		switch outcome {
 		case "refused":
 			name = vfkit.Name{[]byte(label), []byte("nowhere"), []byte("example")}
@@ -191,6 +192,19 @@ func TestVfC12Edns(t *testing.T) {
 			name = vfkit.Name{[]byte(label), []byte("dead"), []byte("test")}
 		default:
 			name = vfkit.Name{[]byte(label), []byte("Ok"), []byte("TEST")}
+			if rapid.IntRange(0, 7).Draw(t, "longName") == 0 {
+				// a name of 240-255 octets: question and one answer record alone fill most of a 512-octet datagram, and the
+				// OPT the client is owed still has to be in the response
+				fill := rapid.IntRange(228, 243).Draw(t, "nameFill") - len(label)
+				var mid vfkit.Name
+				for fill > 1 {
+					l := min(63, fill-1)
+					mid = append(mid, bytes.Repeat([]byte{'w'}, l))
+					fill -= l + 1
+				}
+				name = append(append(vfkit.Name{[]byte(label)}, mid...), []byte("Ok"), []byte("TEST"))
+				longName = true
+			}
 		}
 		sc := &c12Script{}
 		if outcome == "rcode" {
@@ -372,6 +386,9 @@ func TestVfC12Edns(t *testing.T) {
 		}
 		if sc.nearLimit > 0 {
 			classes = append(classes, "answer-within-45-octets-of-the-udp-limit")
+		}
+		if longName {
+			classes = append(classes, "name-of-240-255-octets")
 		}
 		st.Case(vfkit.Fingerprint(ecs, via, addr.String(), outcome, seq), clientOpts || upOpts || beyond, classes, func() any {
 			return map[string]any{"ecs": ecs, "via": via, "addr": addr.String(), "outcome": outcome, "upstream_queries": mine}
